@@ -785,7 +785,7 @@ impl Property for C42 {
         "steps of the system clock legitimately move the estimator time; the monotonicity clause is checked for progress_time / measurements",
     ];
     const QUICK_CASES: u32 = 1_000_000;
-    const THOROUGH_CASES: u32 = 12_000_000;
+    const THOROUGH_CASES: u32 = 27_000_000;
 
     fn strategy(_tier: Tier) -> BoxedStrategy<Case> {
         // estimator histories start with a small dense topology most of the time
